@@ -4,6 +4,8 @@ import GluonModel.Loader
 import GluonModel.LoadVerify
 import GluonModel.ModuleRec
 import GluonModel.JsonStr
+import GluonModel.JsonText
+import GluonModel.InstrVerify
 open GluonModel GluonModel.Share
 
 /-- sorts of the protocol: `d` GcPtr<DataStruct>, `a` GcPtr<ValueArray>, `f` Arc<[InternedStr]> -/
@@ -104,7 +106,61 @@ partial def parseVFn : Sexp → Option VFn
     pure (.mk 0 mx code ns recs up inner)
   | _ => none
 
+section Instructions
+open GluonModel.InstrJson GluonModel.Generated.InstrEnum GluonModel.InstrVerify
+
+/-- decode the text of an `instructions` array; the flag says whether encoding the decoded
+    instructions reproduces the text character by character -/
+def decodeText (text : String) : Except String (List Instr × Bool) :=
+  match JsonText.parse text.toList with
+  | none => .error "bad-json"
+  | some j =>
+    match decodeList j with
+    | none => .error "decode-fails"
+    | some is => .ok (is, JsonText.print (encodeList is) == text.toList)
+
+/-- `(fn args max upvars nstrings (record sizes) "<instructions json>" nosplits|(k…) (inner…))`
+    ↦ the function, "every text reproduced", "every operand in range" -/
+partial def parseMFn : Sexp → Except String (MFn × Bool × Bool)
+  | .list [.atom "fn", args, mx, up, ns, .list recs, .str text, splits, .list inner] =>
+    match args.toNat?, mx.toNat?, up.toNat?, ns.toNat?, recs.mapM Sexp.toNat? with
+    | some args, some mx, some up, some ns, some recs =>
+      let sp : Option (Option (List Nat)) :=
+        match splits with
+        | .atom "nosplits" => some none
+        | .list ks => (ks.mapM Sexp.toNat?).map some
+        | _ => none
+      match sp, decodeText text, inner.mapM parseMFn with
+      | none, _, _ => .error "bad-request"
+      | _, .error e, _ => .error e
+      | _, _, .error e => .error e
+      | some sp, .ok (is, same), .ok gs =>
+        .ok (.mk args mx is sp ns recs up (gs.map (·.1)),
+             same && gs.all (·.2.1), is.all Instr.inRange && gs.all (·.2.2))
+    | _, _, _, _, _ => .error "bad-request"
+  | _ => .error "bad-request"
+
+def answerMod (s : Sexp) : String :=
+  match parseMFn s with
+  | .error e => e
+  | .ok (m, same, inr) =>
+    "(n " ++ toString m.count ++ " adj " ++ toString m.adjust ++ " rt " ++
+      (if same then "same" else "differs") ++ " range " ++ (if inr then "ok" else "out") ++ " " ++
+      verdict m ++ ")"
+
+def answerInstrs (text : String) : String :=
+  match JsonText.parse text.toList with
+  | none => "bad-json"
+  | some j =>
+    match decodeList j with
+    | none => "err"
+    | some is => "(ok " ++ Sexp.quote (String.ofList (JsonText.print (encodeList is))) ++ ")"
+
+end Instructions
+
 def handle : List Sexp → String
+  | [.atom "mod", f] => answerMod f
+  | [.atom "instrs", .str text] => answerInstrs text
   | [.atom "ser", t] =>
     match parseT t with
     | some t => okPattern (serD [] t).1
